@@ -124,6 +124,7 @@ pub fn run(args: &[&str]) -> String {
                                 out.push(format!("{}wire:{}={}", sidec, t[1], hex(&b)));
                             }
                             "wmode" => side.conns[t[1]].1.set_mode(crate::sock::parse_wmode(t[2])),
+                            "wplan" => side.conns[t[1]].1.plan(crate::sock::parse_wplan(t[2])),
                             _ => panic!("proxy op {}", t[0]),
                         }
                     }
